@@ -35,7 +35,7 @@ def random_events(rng: random.Random, project: dict, cur: dict, outputs: list[st
     srcs = [p for p in project["sources"] if not p.endswith(".py")]
     for _ in range(rng.choice([1, 1, 2, 3])):
         kind = rng.choice(["mod", "mod", "del", "restore", "recreate", "plan", "newglob", "delout", "clobberout",
-                           "rmdir", "mvdir", "newtree", "touch"])
+                           "rmdir", "mvdir", "newtree", "touch", "flicker", "mktree", "regrow"])
         if kind == "mod" and srcs:
             p = rng.choice(srcs)
             v = rng.choice(project["sources"][p])
@@ -82,6 +82,44 @@ def random_events(rng: random.Random, project: dict, cur: dict, outputs: list[st
                     cur[p] = None
         elif kind == "newtree" and any(p.startswith("data/") for p in project["sources"]):
             edits.append(["set", "data/d3.txt", "a"])
+        elif kind == "flicker":
+            # a new path appears, disappears and appears again (or the other way round) in one phase
+            cands = [p for p in ("src/g3.in", "src/lib/g3.in", "data/d3.txt", "data/deep/d3.txt")
+                     if any(q.startswith(p.rsplit("/", 1)[0] + "/") for q in project["sources"])]
+            if cands:
+                p = rng.choice(cands)
+                seq = [["set", p, "a"], ["del", p], ["set", p, "a"]]
+                edits.extend(seq if rng.random() < 0.7 else seq[:2])
+        elif kind == "mktree":
+            # directories (re)appear one level at a time, then the files in them
+            nested = sorted({p.rsplit("/", 1)[0] for p in project["sources"] if p.count("/") >= 1})
+            if nested:
+                d = rng.choice(nested)
+                parts = d.split("/")
+                for n in range(1, len(parts) + 1):
+                    edits.append(["mkdir", "/".join(parts[:n])])
+                for p in srcs:
+                    if p.startswith(d + "/"):
+                        v = project["sources"][p][0]
+                        edits.append(["set", p, v])
+                        cur[p] = v
+        elif kind == "regrow":
+            # a whole top-level directory is removed and grown again level by level
+            tops = sorted({p.split("/", 1)[0] for p in srcs if "/" in p})
+            if tops:
+                t = rng.choice(tops)
+                edits.append(["rmdir", t])
+                dirs = sorted({p.rsplit("/", 1)[0] for p in srcs if p.startswith(t + "/")})
+                for d in dirs:
+                    parts = d.split("/")
+                    for n in range(1, len(parts) + 1):
+                        if ["mkdir", "/".join(parts[:n])] not in edits:
+                            edits.append(["mkdir", "/".join(parts[:n])])
+                for p in srcs:
+                    if p.startswith(t + "/"):
+                        v = project["sources"][p][0]
+                        edits.append(["set", p, v])
+                        cur[p] = v
         elif kind == "touch" and srcs:
             edits.append(["touch", rng.choice(srcs)])
     return edits
@@ -111,8 +149,9 @@ def exec_watch_case(case: dict) -> dict:
         run = out["runs"][-1]
         wps = run["watch_points"]
         cfg = phases[0].get("cfg", {})
+        off = len(phases) - run["nphases"]  # index of the phase that started the watching director
         replay = {"tid": case["tid"], "project": project, "phases": copy.deepcopy(phases)}
-        replay["phases"][0]["choices"] = run["choices"]
+        replay["phases"][off]["choices"] = run["choices"]
         k = 0
         for snap in snaps:
             i = snap["i"]
@@ -124,14 +163,14 @@ def exec_watch_case(case: dict) -> dict:
             w.clock = world.clock + 5000 + i
             w.env = dict(world.env)
             w.created_dirs = set()
-            rphase = {"edits": phases[i + 1]["edits"], "how": "restart", "cfg": cfg, "seed": case["seed"] + i}
+            rphase = {"edits": phases[off + i + 1]["edits"], "how": "restart", "cfg": cfg, "seed": case["seed"] + i}
             outb = run_history(project, [rphase], world=w)
             tidb = f"{case['tid']}/restart{i}"
             traces.append((tidb, tlc.export_trace(tidb, outb["events"])))
             b = side(outb["runs"][-1])
             k += 1
             rels.append({"tid": case["tid"], "k": k, "rel": "watch_eq_restart", "a": a, "b": b,
-                         "info": {"phase": i + 1, "events": phases[i + 1]["edits"]}})
+                         "info": {"phase": off + i + 1, "events": phases[off + i + 1]["edits"]}})
         if run["exc"] or run["hang"]:
             rels.append({"tid": case["tid"], "k": k + 1, "rel": "watch_eq_restart",
                          "a": {"state": run["final_state"], "disk": disk_ev(run["disk"]), "rc": 1},
@@ -145,8 +184,54 @@ def exec_watch_case(case: dict) -> dict:
             "traces": traces, "replay": replay, "nrel": len(rels)}
 
 
-def build_cases(seed, n):
+# scripted event sequences: (shape, edits between the sessions, watch phases)
+SCRIPTED = [
+    ("tree_glob", [], [[["set", "src/g3.in", "a"], ["del", "src/g3.in"], ["set", "src/g3.in", "a"]]]),
+    ("tree_glob", [], [[["set", "src/g3.in", "a"], ["del", "src/g3.in"]], [["set", "src/g3.in", "a"]]]),
+    ("tree_glob", [], [[["del", "src/g2.in"], ["set", "src/g2.in", "a"], ["del", "src/g2.in"]]]),
+    ("tree_glob", [], [[["del", "src/g2.in"], ["set", "src/g2.in", "b"]], [["set", "src/g2.in", "a"]]]),
+    ("tree_glob", [], [[["set", "data/d3.txt", "a"], ["del", "data/d3.txt"], ["set", "data/d3.txt", "a"]],
+                       [["del", "data/d1.txt"], ["set", "data/d1.txt", "a"]]]),
+    ("tree_glob", [], [[["rmdir", "src"]], [["mkdir", "src"], ["set", "src/g1.in", "a"], ["set", "src/g3.in", "a"]]]),
+    ("tree_glob", [["rmdir", "src"], ["rmdir", "data"]],
+     [[["mkdir", "src"], ["set", "src/g1.in", "a"]], [["mkdir", "data"], ["set", "data/d1.txt", "a"], ["set", "data/d2.txt", "b"]]]),
+    ("tree_glob", [], [[["mvdir", "src", "src2"]], [["mvdir", "src2", "src"]]]),
+    ("tree_glob", [], [[["del", "out/g1.out"], ["raw", "t1.txt", "user\n"]], [["rmdir", "out"]]]),
+    ("nested_dirs", [["rmdir", "a"], ["rmdir", "src"], ["rmdir", "data"]],
+     [[["mkdir", "a"], ["mkdir", "a/b"], ["set", "a/b/inp.txt", "a"]],
+      [["mkdir", "src"], ["mkdir", "src/lib"], ["set", "src/lib/g1.in", "a"], ["set", "src/lib/g3.in", "a"]],
+      [["mkdir", "data"], ["mkdir", "data/deep"], ["set", "data/deep/d1.txt", "b"]]]),
+    ("nested_dirs", [], [[["rmdir", "a"]], [["mkdir", "a"], ["mkdir", "a/b"], ["set", "a/b/inp.txt", "b"]]]),
+    ("nested_dirs", [], [[["rmdir", "a"], ["mkdir", "a"], ["mkdir", "a/b"], ["set", "a/b/inp.txt", "a"]]]),
+    ("nested_dirs", [], [[["mvdir", "src/lib", "src/lib2"]], [["mvdir", "src/lib2", "src/lib"], ["set", "src/lib/g3.in", "a"]]]),
+    ("nested_dirs", [], [[["rmdir", "out"]], [["rmdir", "data/deep"]], [["mkdir", "data/deep"], ["set", "data/deep/d1.txt", "a"]]]),
+    ("nested_dirs", [["rmdir", "out"]], [[["set", "src/lib/g3.in", "a"], ["del", "src/lib/g3.in"], ["set", "src/lib/g3.in", "a"]]]),
+    ("glob_undeclared", [], [[["set", "src/g2.in", "b"]], [["del", "src/g2.in"]], [["set", "src/g3.in", "a"], ["set", "plan.py", "v2"]]]),
+    ("glob_undeclared", [], [[["touch", "src/g1.in"], ["set", "s1.txt", "b"]], [["set", "plan.py", "v2"]], [["set", "src/g1.in", "b"]]]),
+    ("chain", [], [[["raw", "o1.txt", "user\n"], ["del", "s1.txt"]], [["set", "s1.txt", "a"]]]),
+    ("chain", [], [[["raw", "o1.txt", "user\n"]], [["del", "o2.txt"], ["set", "s2.txt", "b"]]]),
+    ("chain", [], [[["set", "s1.txt", "b"], ["set", "s1.txt", "a"]], [["del", "s1.txt"], ["set", "s1.txt", "a"]], [["del", "s1.txt"]]]),
+]
+
+
+def scripted_cases(seed):
     cases = []
+    for j, (shape, between, watches) in enumerate(SCRIPTED + SCRIPTED):
+        # one hash worker: the updates of a batch arrive in queue order (sorted paths when
+        # watching, table order at startup); two workers: in an order chosen by the schedule
+        cfg = {"njob": 1 if j < len(SCRIPTED) else 2, "resources": "gpu:2,tpu:2"}
+        proj = SHAPES[shape]()
+        phases = [initial_phase(proj, cfg=cfg, seed=seed + j)]
+        if between:
+            phases.append({"edits": between, "how": "restart", "cfg": cfg, "seed": seed + 50 + j})
+        for w in watches:
+            phases.append({"edits": w, "how": "watch"})
+        cases.append({"tid": f"ws{j}-{shape}", "project": proj, "phases": phases, "seed": seed * 7 + j})
+    return cases
+
+
+def build_cases(seed, n):
+    cases = scripted_cases(seed)
     cfgs = [{"njob": 1, "resources": "gpu:2,tpu:2"}, {"njob": 2, "resources": "gpu:2,tpu:2"},
             {"njob": 3, "resources": "gpu:2,tpu:2", "keep_going": True}]
     projects = []
@@ -166,6 +251,15 @@ def build_cases(seed, n):
         cfg = cfgs[j % 3]
         phases = [initial_phase(proj, cfg=cfg, seed=rng.randrange(10**6))]
         cur = {p: v[0] for p, v in proj["sources"].items()}
+        if j % 3 == 2:
+            # the watching director is a later one: directories vanished between the sessions
+            tops = sorted({p.split("/", 1)[0] for p in proj["sources"] if "/" in p})
+            gone = [["rmdir", t] for t in tops if rng.random() < 0.7]
+            for e in gone:
+                for p in list(cur):
+                    if p.startswith(e[1] + "/"):
+                        cur[p] = None
+            phases.append({"edits": gone, "how": "restart", "cfg": cfg, "seed": rng.randrange(10**6)})
         outputs = ["o1.txt", "o2.txt", "out/o3.txt", "out/o1.txt", "o5.txt", "b.txt", "t1.txt"]
         for _ in range(rng.choice([2, 3, 4])):
             phases.append({"edits": random_events(rng, proj, cur, outputs), "how": "watch"})
